@@ -18,6 +18,7 @@ import (
 	"fmt"
 	"io"
 	"net"
+	"time"
 
 	"github.com/honeytrap/honeytrap/director"
 	"github.com/honeytrap/honeytrap/event"
@@ -78,21 +79,34 @@ func (s *dnsProxy) Handle(ctx context.Context, conn net.Conn) error {
 
 		req := new(dns.Msg)
 		if err := req.Unpack(buff[:n]); err != nil {
-			return err
+			// not a DNS message - but it has been forwarded all the same: record it as it is
+			// (the backend's answer, if any, is relayed like any other)
+			s.c.Send(event.New(
+				EventOptions,
+				event.Category("dns-proxy"),
+				event.Type("dns"),
+				event.Protocol(conn.RemoteAddr().Network()),
+				event.SourceAddr(conn.RemoteAddr()),
+				event.DestinationAddr(conn.LocalAddr()),
+				event.Payload(buff[:n]),
+			))
+		} else {
+			s.c.Send(event.New(
+				EventOptions,
+				event.Category("dns-proxy"),
+				event.Type("dns"),
+				event.Protocol(conn.RemoteAddr().Network()),
+				event.SourceAddr(conn.RemoteAddr()),
+				event.DestinationAddr(conn.LocalAddr()),
+				event.Custom("dns.id", fmt.Sprintf("%d", req.Id)),
+				event.Custom("dns.opcode", fmt.Sprintf("%d", req.Opcode)),
+				event.Custom("dns.message", fmt.Sprintf("Querying for: %#q", req.Question)),
+				event.Custom("dns.questions", req.Question),
+			))
 		}
 
-		s.c.Send(event.New(
-			EventOptions,
-			event.Category("dns-proxy"),
-			event.Type("dns"),
-			event.Protocol(conn.RemoteAddr().Network()),
-			event.SourceAddr(conn.RemoteAddr()),
-			event.DestinationAddr(conn.LocalAddr()),
-			event.Custom("dns.id", fmt.Sprintf("%d", req.Id)),
-			event.Custom("dns.opcode", fmt.Sprintf("%d", req.Opcode)),
-			event.Custom("dns.message", fmt.Sprintf("Querying for: %#q", req.Question)),
-			event.Custom("dns.questions", req.Question),
-		))
+		// do not wait for ever for a backend that does not answer
+		conn2.SetReadDeadline(time.Now().Add(30 * time.Second))
 
 		if n, err = conn2.Read(buff[:]); err != nil {
 			return err
